@@ -41,6 +41,7 @@ fn main() {
             let shard: u64 = args.get(7).map(|s| s.parse().unwrap()).unwrap_or(0);
             let nshards: u64 = args.get(8).map(|s| s.parse().unwrap()).unwrap_or(1);
             ctx::quiet_panics();
+            std::env::set_var("TU_HARNESS_TMP", dir);
             props::tok::set_tmp(dir);
             let mut c = Ctx::new(dir, seed, thorough, scale, shard, nshards, exec_for(prop));
             // a panic of the implementation while the GENERATOR is driving it (outside a recorded request) must not be
